@@ -96,6 +96,27 @@ CHECKS = {
             "modes and convert flags; the real outputs are compared with the model's rationals at every grid point, hit_windows() with "
             "build(), and the AR / OD / HP / hit windows embedded in osu, taiko and catch difficulty attributes with the builder's output.",
             "DESIGN.md 3/C17", "TLA+ model checking (TLC) in exact rationals + replay of every grid point"),
+    "C10": ("spec/StrainsVec.tla + MC_StrainsVec.tla; harness strainsvec-replay (default and raw_strains builds), dump-results (4 feature builds)", "model_checking",
+            "Both strain-list implementations are modelled side by side; TLC checks for all push sequences over non-negative peaks and "
+            "every lifecycle ending (difficulty_value, osu difficulty_value with scaling, sum, into_vec, iter) that they give numerically "
+            "equal results; the same sequences are replayed on the real type in the default and the raw_strains build (entries and results "
+            "vs the respective model column); a seeded scenario list (maps with long breaks, converts, fixtures, gradual) is evaluated by "
+            "four harness binaries (default, raw_strains, sync, both) whose dumps must be identical.",
+            "DESIGN.md 3/C10", "TLA+ refinement check (TLC) + replay in two feature builds + 4-build end-to-end differential"),
+    "C11": ("spec/StrainsVec.tla (I1-I3) + spec/Lifecycle.tla + MC_*.tla; harness strainsvec-replay, lifecycle-replay, pathbuf-replay, Miri in thorough", "model_checking",
+            "TLA+ cannot see memory; each unsafe block's precondition is stated as a state invariant (value entries sign-positive so the "
+            "sign bit discriminates the union, no zero-run entry at transmute, zero counts >= 1, the referent of a self-referential "
+            "calculator never moves) and checked by TLC for all op sequences over positive/zero/negative/subnormal/NaN pushes and all "
+            "lifecycle histories (Box, Vec growth, swap, thread hand-over, drop midway, two interleaved instances); every sequence and "
+            "history is replayed on the real types (entries through a guarded hook, outputs vs an undisturbed run), slider paths failing "
+            "at every segment are followed by good sliders, and the thorough tier runs the same replays under Miri as a UB observer.",
+            "DESIGN.md 3/C11", "TLA+ model checking (TLC) of unsafe preconditions + replay with hooks + Miri observer"),
+    "C16": ("spec/StrainSkill.tla + MC_StrainSkill.tla; harness strains-replay", "model_checking",
+            "The section machine (first section end, saved peaks, open section pushed once on both export paths) is modelled on integer "
+            "times; TLC checks it against the closed form for all small time sequences and clock rates and emits the predicted section "
+            "count per mode; the real strain vectors of all four modes must have exactly that length, equal across the skills of a mode, "
+            "finite and non-negative, and re-aggregating the returned peaks must reproduce the catch / mania stars and the osu flashlight rating.",
+            "DESIGN.md 3/C16", "TLA+ model checking (TLC) of the section machine + replay + numeric re-aggregation from returned peaks"),
 }
 
 NOT_YET = {
